@@ -91,7 +91,6 @@ CHECKS = {
     "C17": dict(
         technique="TLC enumerates ALL strings up to a length over a branch-covering alphabet (MC_Fuzz); decoders' outcome classes judged by TLC (Trace_Fuzz)",
         text="Every string of length <=4 (thorough <=5) over {0,5,f,g,z,-,+,.,/,U+0663} as body for 9 URL decoders + compass with several declared sizes, as input to 16 library combinators (sizes incl. zero, every offset), URL-frame mutilations, 60x60 / 1x400 / 400x1 boards: outcome must be None, ValueError, or a problem of the stated size that re-encodes and re-decodes to itself.",
-        category="exploration",
         note="bounded-exhaustive input enumeration (not a proof about all strings); None/ValueError classified by the harness, all other outcomes judged by TLC",
         ref="DESIGN.md 5 C17"),
     "C18": dict(
